@@ -786,4 +786,27 @@ theorem volume_sound_3d (v : String) (ρ : Env ℝ) : ∀ (D : VDom ℝ) (e : Do
       rw [image_add_right]
       exact (measurable_add_const _) md
 
+/-! ## 6. rotations in any dimension -/
+
+/-- **rotations in any dimension**: the image of ANY set under `q ↦ L (q − c) + c` has the same Lebesgue measure when
+    `|det L| = 1` (what `Rotate` does with an n×n rotation matrix and a centre) -/
+theorem affine_det_one_invariant {n : ℕ} (L : (Fin n → ℝ) →ₗ[ℝ] (Fin n → ℝ)) (c : Fin n → ℝ)
+    (hdet : |LinearMap.det L| = 1) (A : Set (Fin n → ℝ)) :
+    μL ((fun q => L (q - c) + c) '' A) = μL A := by
+  have hfun : (fun q => L (q - c) + c) = (fun q => q + c) ∘ L ∘ (fun q => q + (-c)) := by
+    funext q; simp [sub_eq_add_neg]
+  rw [hfun, image_comp, image_comp, translation_invariant, Measure.addHaar_image_linearMap, hdet,
+    translation_invariant]
+  simp
+
+/-- 3-D: a 3×3 matrix with determinant ±1 (every rotation matrix `Rotate` is used with) -/
+theorem rotation3_invariant (M : Matrix (Fin 3) (Fin 3) ℝ) (c : Fin 3 → ℝ) (hdet : |M.det| = 1) (A : Set (Fin 3 → ℝ)) :
+    μL ((fun q => Matrix.toLin' M (q - c) + c) '' A) = μL A :=
+  affine_det_one_invariant (Matrix.toLin' M) c (by rw [LinearMap.det_toLin']; exact hdet) A
+
+/-- non-vacuity: the quarter turn about the z-axis through (1,2,3) -/
+example (A : Set (Fin 3 → ℝ)) :
+    μL ((fun q => Matrix.toLin' (Matrix.of ![![0, -1, 0], ![1, 0, 0], ![0, 0, (1:ℝ)]]) (q - ![1, 2, 3]) + ![1, 2, 3]) '' A) = μL A :=
+  rotation3_invariant _ _ (by simp [Matrix.det_fin_three]) A
+
 end TPV.Geom
